@@ -526,6 +526,30 @@ def load_bounded(run):
         'an int; element-wise; constructor parameters recursively)'))
 
 
+def json_bounded(run):
+    try:
+        rc, out, err = run_native([os.path.join(
+            VERIF, 'checks', 'json_native.py')], run.repo, timeout=900)
+        r = json.loads(out)
+    except Exception as ex:      # noqa
+        run.broken.append('JSON stand-in failed to run: %r' % (ex,))
+        return
+    run.bounded.append(Bounded(
+        'json-dump-end-to-end', 'plain-data trees of depth <= 2 over 9 '
+        'scalars and 12 strings (ASCII, Latin-1, BMP, non-BMP, quotes, '
+        'backslashes, control characters, strings that look like numbers / '
+        'booleans / null), containers with 0-2 entries; 4 class models '
+        '(plain, _yatiml_extra, enum / Path / date attributes, a sweeten hook '
+        'that writes a null attribute); indent in {None,0,1,2,4,8} x '
+        'ensure_ascii in {True,False}', r['evaluations'], r['failures'],
+        'the real dumps_json functions: strict RFC 8259 text (own strict '
+        'parser), content equals an independently written projection (key '
+        'order compared), ASCII-only / no whitespace outside strings by '
+        'default, non-ASCII unescaped with ensure_ascii=False, reload with '
+        'the matching load function equal for printable BMP strings (not '
+        'asserted for values with dates: known finding D24)'))
+
+
 def dump_bounded(run):
     try:
         rc, out, err = run_native([os.path.join(
